@@ -2428,6 +2428,7 @@ class VM:
                     OpCode.BUILD_OBJECT,
                     OpCode.BUILD_REGEX,
                     OpCode.MAKE_CLOSURE,
+                    OpCode.TYPEOF_NAME,
                 ):
                     arg = bytecode[frame.ip]
                     frame.ip += 1
